@@ -108,10 +108,16 @@ def check_artifacts(drv, files, firmware, key_id, hash_alg, problems, key_name="
     # create accepts the info unchanged as a raw encryption-info parameter
     try:
         from suit_generator.suit.manifest import SuitEncryptionInfo
-        if SuitEncryptionInfo.from_obj({"raw": info.hex()}).to_cbor() != info:
+        # the hex text of the file as people paste it into a description: one line, upper case, a folded / literal block scalar (line breaks),
+        # a hex dump with blanks
+        hx = info.hex()
+        form = (len(firmware) + key_id) % 5
+        text = [hx, hx.upper(), "\n".join(hx[i:i + 64] for i in range(0, len(hx), 64)) + "\n", " ".join(hx[i:i + 2] for i in range(0, len(hx), 2)),
+                " ".join(hx[i:i + 32] for i in range(0, len(hx), 32))][form]
+        if SuitEncryptionInfo.from_obj({"raw": text}).to_cbor() != info:
             problems.append("create re-encodes the raw encryption info differently")
     except BaseException as e:  # noqa
-        problems.append("create rejects the encryption info: " + type(e).__name__)
+        problems.append(f"create rejects the raw encryption info (hex text form {form}): " + type(e).__name__)
     return v
 
 
@@ -119,7 +125,7 @@ def work(args):
     seed, index, size, key_id, hash_alg = args
     import random
     rng = random.Random(f"{seed}:{index}:c06")
-    firmware = bytes(rng.randrange(256) for _ in range(size))
+    firmware = bytes(rng.randrange(256) for _ in range(size)) if size < 100000 else rng.randbytes(size)
     drv = common.worker_driver()
     out = {"hash": hashlib.sha1(firmware + f"{key_id}{hash_alg}".encode()).hexdigest(), "problems": [], "mismatch": None, "iv": None}
     key_name = "aes_key" if index % 3 else sorted(AES_KEYS)[(index // 3) % len(AES_KEYS)]
@@ -297,6 +303,10 @@ def run(tier: str, seed: int, prop=PROP) -> int:
                 i += 1
     for k in range(120 if tier == "quick" else 4000):
         jobs.append((seed, i, rng.randrange(0, 3000), rng.choice(KEY_IDS + [rng.randrange(0, 2 ** 32)]), rng.choice(list(DIGESTS))))
+        i += 1
+    # images of real size (application cores are megabytes): around 1 MiB and beyond, where a reader or cipher working in pieces changes its path
+    for size in ([1 << 20, (1 << 20) + 1, 2621440 + 7] if tier == "quick" else [1 << 20, (1 << 20) + 1, (1 << 20) - 1, 2621440 + 7, 4 << 20, (8 << 20) + 3]):
+        jobs.append((seed, i, size, KEY_IDS[i % len(KEY_IDS)], list(DIGESTS)[i % len(DIGESTS)]))
         i += 1
     outs = common.pmap(work, jobs, chunk=4)
     for job, o in zip(jobs, outs):
